@@ -548,9 +548,10 @@ func c20List(t *testing.T, run *Run, bin string, sc c20Scenario, rng *rand.Rand)
 			k = 0
 		}
 		forceTLS := false
-		if (sc.Case == "0" || sc.Case == "1") && i < 2 {
-			// directed start: a TLS root-path service, then a service below a path prefix on its host
-			name, k, forceTLS = "alpha", []int{0, 6}[i], true
+		if (sc.Case == "0" || sc.Case == "1") && i < 3 {
+			// directed start: a TLS root-path service, then a service below a path prefix on its host,
+			// then the TLS service is stopped (paused): the rows still say TLS yes
+			name, k, forceTLS = "alpha", []int{0, 6, map[string]int{"0": 3, "1": 2}[sc.Case]}[i], true
 		}
 		switch k {
 		case 6:
